@@ -54,7 +54,7 @@ func sigStage(timeout time.Duration, maxExamples int) (*SigStats, error) {
 				ds := run.TestSig(&l)
 				mu.Lock()
 				st.Cases++
-				st.Tests += 9
+				st.Tests += 9 + 9*7
 				if l.Pv == "ok" {
 					st.Accepted++
 					if len(st.Samples) < 2 && len(l.Fp) > 0 {
